@@ -579,6 +579,9 @@ func Run(c *common.Ctx) error {
 	if err := exportDuringHaltRelease(c, c.Rng.Fork()); err != nil {
 		return err
 	}
+	if err := writerDiesHoldingLock(c, c.Rng.Fork()); err != nil {
+		return err
+	}
 	for _, wal := range []bool{true, false} {
 		if err := free(c, c.Rng.Fork(), wal, time.Duration(c.Pick(400, 3000))*time.Millisecond); err != nil {
 			return err
